@@ -99,7 +99,12 @@ func (r *DecoratorResolver) imports(file *ast.File) (map[string]string, error) {
 			}
 			return true
 		case *ast.ImportSpec:
-			path := mustUnquote(node.Path.Value)
+			path, err := strconv.Unquote(node.Path.Value)
+			if err != nil {
+				// a file that did not parse completely (go/parser returns it with the error)
+				outer = fmt.Errorf("goast.DecoratorResolver invalid import path %s: %w", node.Path.Value, err)
+				return false
+			}
 			if path == "C" {
 				return false
 			}
